@@ -2816,6 +2816,10 @@ func (uconn *UConn) ApplyPreset(p *ClientHelloSpec) error {
 			strconv.Itoa(len(hello.Random)) + " bytes")
 	}
 
+	if len(p.CompressionMethods) > 0 {
+		// the spec says what the hello offers (e.g. a fingerprint that still lists DEFLATE)
+		hello.CompressionMethods = append([]uint8(nil), p.CompressionMethods...)
+	}
 	if len(hello.CompressionMethods) == 0 {
 		hello.CompressionMethods = []uint8{compressionNone}
 	}
